@@ -903,6 +903,32 @@ def m_re_fullmatch(it, args, kw):
     return m_str.regex_match(it, re.compile(args[0], *(args[2:])), args[1], "fullmatch")
 
 
+@model(BaseException.__init__, Exception.__init__)
+def m_exc_init(it, args, kw):
+    o = args[0]
+    if isinstance(o, SObj):
+        o.attrs["args"] = tuple(args[1:])
+        return None
+    return it.call_real(BaseException.__init__, list(args), kw)
+
+
+# ------------------------------------------------------------------ asyncio (A13, A14)
+import asyncio  # noqa: E402
+
+
+class SSleep:
+    """Result of asyncio.sleep(delay), to be awaited: a cut point between atomic segments."""
+
+    def __init__(self, delay, result=None):
+        self.delay = delay
+        self.result = result
+
+
+@model(asyncio.sleep)
+def m_asleep(it, args, kw):
+    return SSleep(args[0] if args else kw.get("delay", 0), args[1] if len(args) > 1 else kw.get("result"))
+
+
 # ------------------------------------------------------------------ logging (A7)
 import logging  # noqa: E402
 
@@ -1107,7 +1133,12 @@ def i_note(it, args, kw):
     return None
 
 
+def i_new_object(it, args, kw):
+    return SObj(args[0], dict(kw))
+
+
 INTRINSICS = {
+    "new_object": i_new_object,
     "sym_int": i_sym_int, "sym_bool": i_sym_bool, "sym_str": i_sym_str, "sym_float": i_sym_float,
     "sym_choice": i_sym_choice, "assume": i_assume, "check": i_check, "cover": i_cover,
     "outcome": i_outcome, "And": i_And, "Or": i_Or, "Not": i_Not, "Implies": i_Implies,
